@@ -105,6 +105,9 @@ class ParseFlowRoute(Section):
 
     def post(self) -> bool:
         route: Any = self.scope.get_route()
+        family_error = route.nlri.family_error()
+        if family_error:
+            return self.error.set(family_error)
         # Recreate NLRI with correct SAFI if RD is present
         # (avoids SAFI mutation which is incompatible with class-level SAFI)
         if route.nlri.rd is not RouteDistinguisher.NORD and route.nlri.safi != SAFI.flow_vpn:
